@@ -44,10 +44,10 @@ def sv_setup(ctx):
             raise PyRaise(ExcVal("PathError", origin="Path()"))
         given = ctx_.fresh("pathstr", S) if isinstance(args[0], Rec) else lift(args[0])
         absolute = fs_resolve(given)  # the same file under its absolute name (cwd is stable during the call: A3)
-        ctx_.assume(fs_isfile(absolute) == fs_isfile(given))
+        # (isfile(given) may differ from isfile(absolute): '~', file:// ... are expanded by Path - only the absolute name identifies the file)
         p = Rec("Path", attrs={"absolute": absolute, "mode": mode}, methods={"__str__": lambda c, s_, a, k: Rec("str", methods={"lower": lambda c2, s2, a2, k2: s2, "endswith": lambda c2, s2, a2, k2: c2.fresh("is_json", B)})})
         if mode == "fc":
-            ctx_.ghost["fc"].extend([absolute, given])
+            ctx_.ghost["fc"].append(absolute)
         return p
 
     def isfile(ctx_, args, kwargs):
